@@ -104,6 +104,9 @@ class WMSServer(Server):
                 sub_size, offset, sub_bbox = bbox_position_in_image(params.bbox, params.size, limited_extent.bbox)
                 query = MapQuery(sub_bbox, sub_size, SRS(params.srs), params.format)
 
+        # layers can still be removed or clipped by the authorization,
+        # what they hide has to stay in that case
+        skip_hidden = 'mapproxy.authorize' not in map_request.http.environ
         actual_layers = odict()
         for layer_name in map_request.params.layers:
             layer = self.layers[layer_name]
@@ -111,7 +114,7 @@ class WMSServer(Server):
             if layer.renders_query(query):
                 # if layer is not transparent and will be rendered,
                 # remove already added (then hidden) layers
-                if layer.is_opaque(query):
+                if skip_hidden and layer.is_opaque(query):
                     actual_layers = odict()
                 for layer_name, map_layers in layer.map_layers_for_query(query):
                     actual_layers[layer_name] = map_layers
